@@ -982,6 +982,25 @@ func runHist(t *testing.T, seed int64, n int, out *Out) {
 					}
 				}
 			}
+			if faults && h.r.Intn(18) == 0 {
+				// a restart from an exported genesis, for one module: ExportGenesis followed by InitGenesis of exactly that export on the
+				// live state. Every ledger must come through it, and what is opened or created afterwards must not collide with what
+				// was imported (id counters).
+				mods := []string{"tradeshield", "leveragelp", "perpetual", "amm", "commitment", "masterchef", "poolaccounted", "tier", "assetprofile", "oracle", "burner", "tokenomics", "parameter", "estaking"}
+				name := mods[h.r.Intn(len(mods))]
+				done := false
+				w.Seed(func(ctx sdk.Context) {
+					cctx, write := ctx.CacheContext()
+					if ok, _ := genesisRoundTrip(w, cctx, name); ok {
+						write()
+						done = true
+					}
+				})
+				if done {
+					curPre = append(curPre, J{"kind": "genesisRoundTrip", "module": name})
+					stats["fault/genesisRoundTrip/"+name]++
+				}
+			}
 			if govShocks && h.r.Intn(6) == 0 {
 				if sh := h.govShock(); sh != "" {
 					curShocks = append(curShocks, sh)
